@@ -22,6 +22,9 @@ def main():
         for n, m, rows, tag in space.tables_of_shard(sh):
             ref = Ref(rows)
             ref.concepts
+            for i in range(len(ref.concepts)):
+                assert sorted(ref.upper_covers(i)) == ref._covers_scan(i, True)
+                assert sorted(ref.lower_covers(i)) == ref._covers_scan(i, False)
             if n * m <= 6:
                 from .refmodel import powerset
                 for a in powerset(range(n)):
